@@ -65,7 +65,7 @@ SubsetOK(r) ==
              /\ r.dangling = 0
              /\ \A q \in Pix : r.out_seg[q] = (IF O.seg[q] \in keep THEN O.seg[q] ELSE 0))
        \* the tif written next to a CSV carries the kept nodes' masks, labelled by track id
-       /\ ((HasSeg /\ r.fmt = "csv" /\ keep # {}) =>
+       /\ ((HasSeg /\ r.fmt = "csv") =>
              /\ r.dangling = 0
              /\ \A q \in Pix : r.out_seg[q] = (IF O.seg[q] \in keep THEN O.tid[O.seg[q]] ELSE 0))
 
